@@ -471,3 +471,117 @@ def run_C02(ctx):
 
 
 register("C02", ["Guard.Properties.C02"], run_C02)
+
+
+# =============================================================================== C03
+
+C03_DOC = {"s": 1, "t": "ab", "l": [1, 2, 3], "e": [], "m": {"a": 1}, "n": None, "f": 1.5, "b": True,
+           "lm": [{"x": 1, "y": 5}, {"x": 2, "y": 6}], "o": [1], "q": 2, "ls": ["ab", "c"]}
+C03_QUERIES = ["s", "t", "l", "l[*]", "e", "e[*]", "m", "m.a", "m.*", "n", "f", "b", "zz", "m.zz", "lm[*].x",
+               "lm[ x == 1 ].y", "lm[ x == 9 ].y", "o", "l[0]", "ls[*]", "some l[*]", "some lm[*].zz", "some zz"]
+C03_RHS = ["1", "2", "0", "\"ab\"", "\"a\"", "1.5", "true", "null", "[1, 2]", "[1]", "[\"ab\", 1]", "[]", "r[0,2]",
+           "/a/", "q", "l", "l[*]", "zz", "{\"a\": 1}", "[[1]]"]
+UNARY = ["exists", "empty", "is_string", "is_list", "is_struct", "is_bool", "is_int", "is_float", "is_null"]
+
+
+def run_C03(ctx):
+    res = Result("exhaustive operator x polarity x left-hand shape x right-hand shape single-clause programs; each case "
+                 "holds the rules whose verdicts the property relates (prefix not vs operator not, double negation, flip, "
+                 "named and parameterised references); non-trivial = evaluated, distinct by (query, operator, rhs)")
+    rng = random.Random(ctx.seed)
+    cases, meta = [], []
+    nots = ["not ", "NOT ", "!"]
+    for q in C03_QUERIES:
+        some = ""
+        qq = q
+        if q.startswith("some "):
+            some, qq = "some ", q[5:]
+        # unary
+        for op in UNARY:
+            n = rng.choice(nots)
+            rules = ("rule plain { %s%s %s }\nrule opnot { %s%s !%s }\nrule pre { %s%s%s %s }\nrule dbl { %s%s%s !%s }\n"
+                     % (some, qq, op, some, qq, op, n, some, qq, op, n, some, qq, op))
+            cases.append({"rules": rules, "data": json.dumps(C03_DOC)})
+            meta.append(("unary", q, op, None))
+        # binary
+        for rhs in C03_RHS:
+            n = rng.choice(nots)
+            rules = ("rule eq { %s%s == %s }\nrule ne { %s%s != %s }\nrule pre_eq { %s%s%s == %s }\nrule pre_ne { %s%s%s != %s }\n"
+                     "rule inn { %s%s in %s }\nrule nin { %s%s not in %s }\nrule pre_in { %s%s%s in %s }\nrule pre_nin { %s%s%s !in %s }\n"
+                     % (some, qq, rhs, some, qq, rhs, n, some, qq, rhs, n, some, qq, rhs,
+                        some, qq, rhs, some, qq, rhs, n, some, qq, rhs, n, some, qq, rhs))
+            for nm, o in [("gt", ">"), ("ge", ">="), ("lt", "<"), ("le", "<=")]:
+                rules += "rule %s { %s%s %s %s }\nrule pre_%s { %s%s%s %s %s }\n" % (nm, some, qq, o, rhs, nm, n, some, qq, o, rhs)
+            cases.append({"rules": rules, "data": json.dumps(C03_DOC)})
+            meta.append(("binary", q, None, rhs))
+    # named / parameterised references
+    for body, st in [("s == 1", "PASS"), ("s == 2", "FAIL"), ("lm[ x == 9 ].y == 1", "SKIP")]:
+        rules = ("rule base {\n%s\n}\nrule pos {\nbase\n}\nrule neg {\nnot base\n}\nrule bang {\n!base\n}\n"
+                 "rule chk(v) {\n%%v == 1\n}\nrule cpos {\nchk(%s)\n}\nrule cneg {\nnot chk(%s)\n}\n"
+                 % (body, "s" if st != "FAIL" else "q", "s" if st != "FAIL" else "q"))
+        cases.append({"rules": rules, "data": json.dumps(C03_DOC)})
+        meta.append(("named", body, st, None))
+    results = vlib.correspond(cases, ctx.hp, ctx.mp, detail=True)
+    absorb(res, results, "C03 negation stream")
+    res.nontrivial = set()
+    flip = {"PASS": "FAIL", "FAIL": "PASS", "SKIP": "SKIP"}
+    scalar_single = {"s", "t", "n", "f", "b", "m.a", "l[0]", "q"}
+    for r, (fam, q, op, rhs) in zip(results, meta):
+        impl = r["impl"]
+        if impl.get("kind") == "err":
+            res.stats["c03-error-cases"] += 1
+            continue
+        if impl.get("kind") != "ok":
+            continue
+        st = dict((n, s) for n, s in impl["rules"])
+        res.nontrivial.add((fam, q, op, rhs))
+        bad = []
+        if fam == "unary":
+            if st["pre"] != st["opnot"]:
+                bad.append("`not X %s` (%s) differs from `X !%s` (%s)" % (op, st["pre"], op, st["opnot"]))
+            if st["dbl"] != st["plain"]:
+                bad.append("`not X !%s` (%s) differs from `X %s` (%s)" % (op, st["dbl"], op, st["plain"]))
+            if st["pre"] == st["plain"] and st["plain"] != "SKIP" and not q.startswith("some") and q in scalar_single | {"zz", "m.zz", "e", "l", "m"}:
+                bad.append("prefix not ignored on unary %s: both %s" % (op, st["plain"]))
+        elif fam == "binary":
+            if st["pre_eq"] != st["ne"]:
+                bad.append("`not X == v` (%s) differs from `X != v` (%s)" % (st["pre_eq"], st["ne"]))
+            if st["pre_ne"] != st["eq"]:
+                bad.append("`not X != v` (%s) differs from `X == v` (%s)" % (st["pre_ne"], st["eq"]))
+            if st["pre_in"] != st["nin"]:
+                bad.append("`not X in L` (%s) differs from `X not in L` (%s)" % (st["pre_in"], st["nin"]))
+            if st["pre_nin"] != st["inn"]:
+                bad.append("`not X not in L` (%s) differs from `X in L` (%s)" % (st["pre_nin"], st["inn"]))
+            for nm in ("eq", "inn", "gt", "ge", "lt", "le"):
+                pre = st["pre_" + ("in" if nm == "inn" else nm)]
+                if (st[nm] == "SKIP") != (pre == "SKIP"):
+                    bad.append("SKIP does not stay SKIP under not for %s: %s vs %s" % (nm, st[nm], pre))
+            # single comparable value: flip
+            if q in ("s", "q", "m.a", "l[0]") and rhs in ("1", "2", "0"):
+                for nm in ("eq", "gt", "ge", "lt", "le"):
+                    if st["pre_" + nm] != flip[st[nm]]:
+                        bad.append("single comparable value: `not X %s v` is %s but `X %s v` is %s" % (nm, st["pre_" + nm], nm, st[nm]))
+                if (st["pre_gt"] == "PASS") != (st["le"] == "PASS") or (st["pre_lt"] == "PASS") != (st["ge"] == "PASS"):
+                    bad.append("`not X > v` must hold exactly when `X <= v` does")
+        else:
+            base = st["base"]
+            if base != op:
+                bad.append("setup: base rule expected %s got %s" % (op, base))
+            if (st["pos"] == "PASS") != (base == "PASS") or st["pos"] == "SKIP":
+                bad.append("named reference: pos=%s base=%s" % (st["pos"], base))
+            for k in ("neg", "bang"):
+                if (st[k] == "PASS") != (base != "PASS") or st[k] == "SKIP":
+                    bad.append("`not R`: %s=%s while R=%s" % (k, st[k], base))
+            if (st["cneg"] == "PASS") == (st["cpos"] == "PASS"):
+                bad.append("`not f(x)` is ignored: cpos=%s cneg=%s" % (st["cpos"], st["cneg"]))
+        for b in bad:
+            res.judge_failures.append({"what": "negation: " + b, "class": "c03-negation", "rules": r["case"]["rules"],
+                                       "data": r["case"]["data"], "observed": impl["rules"]})
+        if not bad:
+            res.add_sample({"query": q, "op": op, "rhs": rhs, "verdicts": impl["rules"][:6]})
+    # plus random programs for the tie of the clause evaluator
+    evaluator_stream(ctx, res, 600, 10000, "C03 random programs")
+    return res
+
+
+register("C03", ["Guard.Properties.C03"], run_C03)
